@@ -55,6 +55,19 @@ theorem memoOK_insert_some {inp : Input} {m : Memo} (h : MemoOK inp m) (cap : Op
     exact ht
   · exact h f' pos' b' ts' len' h2
 
+theorem memoOK_insertW_none {inp : Input} {m : Memo} (h : MemoOK inp m) (cap : Option Nat) (tw : Bool) (k : MKey) :
+    MemoOK inp (m.insertW cap tw k none) := by
+  unfold Memo.insertW; split
+  · exact memoOK_insert_none (memoOK_insert_none h cap k) cap k
+  · exact memoOK_insert_none h cap k
+
+theorem memoOK_insertW_some {inp : Input} {m : Memo} (h : MemoOK inp m) (cap : Option Nat) (tw : Bool) (f pos : Nat) (b : Bool)
+    (ts : List Tree) (len : Nat) (ht : TilesF inp pos ts (pos + len)) :
+    MemoOK inp (m.insertW cap tw (f, pos, b) (some (ts, len))) := by
+  unfold Memo.insertW; split
+  · exact memoOK_insert_some (memoOK_insert_some h cap f pos b ts len ht) cap f pos b ts len ht
+  · exact memoOK_insert_some h cap f pos b ts len ht
+
 /-! ### shapes -/
 
 def envLeaves (env : List (List Tree)) (vs : List Nat) (i : Nat) : List (Nat × Nat × Nat) :=
@@ -745,12 +758,12 @@ theorem allSpec_succ (g : Grammar) (inp : Input) (hg : GrammarWF g) (n : Nat) (i
           have ht : TilesF inp pos ts q := h1.2.1 rfl
           have hle := Chain.le ht
           refine ⟨?_, fun _ => ht, fun hs => by simp at hs⟩
-          apply memoOK_insert_some h1.1 g.memoCap
+          apply memoOK_insertW_some h1.1 g.memoCap
           have : pos + (q - pos) = q := by omega
           rw [this]; exact ht
         · rename_i ep st' heq
           rw [heq] at h1
-          exact ⟨memoOK_insert_none h1.1 _ _, fun _ => trivial, fun _ => trivial⟩
+          exact ⟨memoOK_insertW_none h1.1 _ _ _, fun _ => trivial, fun _ => trivial⟩
         · rename_i st' heq
           rw [heq] at h1
           exact Spec.oof h1.1
